@@ -376,7 +376,8 @@ def gen(rng, tier):
     if tier == "quick":
         cases.append(gen_flood(rng, 600, 8, False, 300))
         cases.append(gen_flood(rng, 700, 7, True, 300))
-        cases.append(gen_ownold(rng, rng.choice([7, 8]), rng.random() < 0.5))
+        cases.append(gen_ownold(rng, rng.choice([7, 8]), False))
+        cases.append(gen_ownold(rng, rng.choice([2, 4]), True, maxgap=rng.choice([5, 40])))
     else:
         for j in range(8):
             cases.append(gen_flood(rng, rng.choice([600, 800, 1200, 2500]), rng.choice([2, 4, 8, 9]), j % 2 == 1, 1500))
